@@ -234,6 +234,20 @@ func (fr *Frame) guardFor(key string) *guardInfo {
 
 // lockAddrOf computes the address of the lock field guarding a field of the struct at base.
 func (fr *Frame) lockAddrOf(g *guardInfo, base Term) Term {
+	if g.foreign {
+		// the lock lives in another object: the receiver of the root method, if it has the lock's type
+		root := fr
+		for root.parent != nil {
+			root = root.parent
+		}
+		if recv := root.fn.Signature.Recv(); recv != nil && len(root.fn.Params) > 0 {
+			if types.Identical(derefType(recv.Type()), g.lockStruct) {
+				st := g.lockStruct.Underlying().(*types.Struct)
+				return LocAdd(root.regs[root.fn.Params[0]], IntLit(int64(fr.u.w.fieldOffset(st, g.lockIdx))))
+			}
+		}
+		return Term{}
+	}
 	st := g.structTyp.Underlying().(*types.Struct)
 	return LocAdd(base, IntLit(int64(fr.u.w.fieldOffset(st, g.lockIdx))))
 }
@@ -262,6 +276,10 @@ func (fr *Frame) checkGuardedLoad(x *ssa.UnOp, c cell, st *State) {
 	}
 	base := fr.val(fa.X)
 	lock := fr.lockAddrOf(g, base)
+	if lock.S == "" {
+		fr.u.note("guarded_by %s.%s: the lock object is not in scope in %s (access not checked here)", g.decl.Type, g.decl.Field, fr.key)
+		return
+	}
 	// remember where the loaded reference came from, for later operations on it (map ops, method calls)
 	fr.u.guardedTerm[fr.regs[x].S] = guardedVal{g: g, lock: lock, base: base}
 	fr.u.oblige(fr, "guard", x.Pos(), fmt.Sprintf("read of %s.%s needs %s", g.decl.Type, g.decl.Field, g.decl.Lock), st.pc,
@@ -279,6 +297,10 @@ func (fr *Frame) checkGuardedStore(x *ssa.Store, c cell, st *State) {
 	}
 	base := fr.val(fa.X)
 	lock := fr.lockAddrOf(g, base)
+	if lock.S == "" {
+		fr.u.note("guarded_by %s.%s: the lock object is not in scope in %s (access not checked here)", g.decl.Type, g.decl.Field, fr.key)
+		return
+	}
 	fr.u.oblige(fr, "guard", x.Pos(), fmt.Sprintf("write of %s.%s needs %s (exclusive)", g.decl.Type, g.decl.Field, g.decl.Lock), st.pc,
 		Or(Eq(Select(st.held, lock, SInt), IntLit(2)), fr.isFreshObject(base)), false)
 }
